@@ -26,6 +26,7 @@ EXPLANATION = (
     "never touch them. R6 is decided as a truth table of the executor's comprehension filter over 'key is bound in the inner graph' x 'value is that bound object': exactly the (bound, same object) case may be dropped. R1 also requires that the DEFAULT (copied) class holds signature defaults only and that values bound on a nested graph have a BOUND path of their own; (R7) a DEFAULT-class value is never collected as a broadcast input of a mapping graph node; (R8) effects analysis: the run/map paths and the executors neither write nor mutate attributes of the runner/executor objects (no state survives a run on the runner; the user's cache backend excepted)."
     " R8 also covers the graph: the run/map/execute paths have no write or mutation effect on the graph parameter — followed through call results that alias it ('spec = resolve(graph)' returning graph.inputs) — except the lazy memoisation inside the graph's own properties."
     " R1 also requires that an input is left out of a nested graph node's collected inputs only on the resolver's own classification (get_value_source(...) == DEFAULT)."
+    " R5 also requires that bind() starts from the graph's own bindings (not the merged view); R2 that a handler's dict answer is copied before the signal names are written into it."
 )
 NOT_DECIDED = "Equality of results across repeated/concurrent runs as such; behaviour of user objects that refuse deepcopy (reported as GraphConfigError by design)."
 
